@@ -74,4 +74,5 @@ PY2_SEEDS = [
 
 
 def all_seeds():
-    return list(SEEDS)
+    from vf.gen import idioms
+    return list(SEEDS) + [('idiom_' + t, src.lstrip('\n')) for t, src in idioms.IDIOMS]
